@@ -474,3 +474,83 @@ fn c09_chain_extension_replaces_tip() {
     core::mem::forget(rc);
     core::mem::forget(bufs);
 }
+
+// ------------------------------------------------------------------------------------------ C19
+
+/// should_sync_on_hello on a single-head graph g <- a <- b: answers "no sync needed" exactly
+/// when the advertised address (symbolic id and max cut) is a command of the local graph;
+/// a replica that lacks the graph always syncs.
+#[kani::proof]
+#[kani::unwind(6)]
+fn c19_should_sync_single_head() {
+    let g: u8 = kani::any();
+    let (a, b, _) = any_distinct3(g);
+    let exists: bool = kani::any();
+    let id: u8 = kani::any();
+    let mc: u64 = kani::any();
+    kani::assume(mc < 4);
+    let prov = if exists { AProvider::with(AStore::with_chain(&[g, a, b]), g) } else { AProvider::empty() };
+    let mut client = ClientState::new(policies(None), prov);
+    let mut tb = TraversalBuffer::new();
+    let r = client.should_sync_on_hello(gid(g), addr(id, mc), &mut tb);
+    let has = exists & (((id == g) & (mc == 0)) | ((id == a) & (mc == 1)) | ((id == b) & (mc == 2)));
+    match r {
+        Ok(sync) => assert!(sync == !has),
+        Err(_) => panic!("should_sync_on_hello failed"),
+    }
+    kani::cover!(exists & (id == a) & (mc == 1), "interior command: no sync");
+    kani::cover!(exists & (id == a) & (mc == 2), "right id, wrong max cut: sync");
+    kani::cover!(!exists, "graph missing: sync");
+    core::mem::forget(client);
+}
+
+/// hello_head of a two-head graph does not depend on the order in which the heads were inserted
+/// nor on which segment index each head lives in; it is the address of the merge command the
+/// policy builds for the id-ordered pair, one above the higher head.
+#[kani::proof]
+#[kani::unwind(6)]
+fn c19_hello_head_two_heads_layout_independent() {
+    let g: u8 = kani::any();
+    let (a, b, _) = any_distinct3(g);
+    let swap_layout: bool = kani::any();
+    let swap_insert: bool = kani::any();
+    let mk = |first: u8, second: u8, ins_rev: bool| {
+        let mut s = AStore::with_chain(&[g]);
+        let mut s1 = ASeg::empty();
+        s1.index = 1;
+        s1.prior = Prior::Single(loc(0, 0));
+        s1.first_mc = 1;
+        s1.len = 1;
+        s1.ids[0] = first;
+        let mut s2 = s1;
+        s2.index = 2;
+        s2.ids[0] = second;
+        s.segs[1] = s1;
+        s.segs[2] = s2;
+        s.nseg = 3;
+        let h1 = LocatedAddress { id: cid(first), segment: SegmentIndex::new(1), max_cut: MaxCut::new(1) };
+        let h2 = LocatedAddress { id: cid(second), segment: SegmentIndex::new(2), max_cut: MaxCut::new(1) };
+        let mut hs = HeadSet::default();
+        if ins_rev {
+            hs.push(h2);
+            hs.push(h1);
+        } else {
+            hs.push(h1);
+            hs.push(h2);
+        }
+        s.heads = hs;
+        s
+    };
+    let s_ref = mk(a, b, false);
+    let s_var = if swap_layout { mk(b, a, swap_insert) } else { mk(a, b, swap_insert) };
+    let mut c1 = ClientState::new(policies(None), AProvider::with(s_ref, g));
+    let mut c2 = ClientState::new(policies(None), AProvider::with(s_var, g));
+    let h1 = match c1.hello_head(gid(g)) { Ok(h) => h, Err(_) => panic!("hello_head") };
+    let h2 = match c2.hello_head(gid(g)) { Ok(h) => h, Err(_) => panic!("hello_head") };
+    assert!(id_byte(h1.id) == id_byte(h2.id) && h1.max_cut == h2.max_cut);
+    assert!(h1.max_cut.get() == 2);
+    assert!(id_byte(h1.id) == (a ^ b ^ 0x80));
+    kani::cover!(swap_layout & swap_insert, "other layout and other insertion order");
+    core::mem::forget(c1);
+    core::mem::forget(c2);
+}
